@@ -404,7 +404,6 @@ func TestC14Identifiers(t *testing.T) {
 	st.mu.Unlock()
 }
 
-
 // predWhitespace: Expr (single spaces between tokens) and Extra["alt"] (same
 // tokens, other whitespace) must compile alike and to the same AST.
 func predWhitespace(c Case) (r Result) {
